@@ -1,5 +1,5 @@
 ------------------------------ MODULE LsPositions ------------------------------
-(* C25: the abstract matrix  document class x position class x position/range-taking request.
+(* C25: the abstract matrix  document class x position classes x position/range-taking request.
 
    The documents are data (file named by the environment variable DOCS, one JSON object per line):
      [cls   |-> "empty" | "ascii" | "nonascii" | "crlf" | "nonl" | "syntaxerr",
@@ -7,29 +7,69 @@
       toks  |-> << <<line, col, len>> : 0-based line, UTF-16 column, UTF-16 length of a token >> ]
    A position class is turned into a concrete (line, character) by Position below; this is the reference
    reading of the classes the property statement lists ("beyond the end of a line or of the document").
-   A range request gets a pair of classes (every ordered pair, so reversed and empty ranges occur).
-   u32::MAX does not fit TLC's integers: it is emitted as -1 and substituted by the transport.
+
+   EVERY position-like parameter of a request is a slot of its own, and the slots of one request are
+   drawn from the position classes independently of each other (Shape):
+     point   one Position                                  hover, definition, ..., inlayHint/resolve
+     point + a string parameter drawn from its own classes rename (newName), onTypeFormatting (ch)
+     list    positions[]: every list of 0..ListMax classes textDocument/selectionRange
+             (so unsorted lists and duplicates occur)
+     range   start, end: every ordered pair (reversed and  rangeFormatting, inlayHint, colorPresentation,
+             empty ranges occur)                           documentLink/resolve, codeLens/resolve
+     quad    two ranges = four slots, every 4-tuple: the   inlineValue (range, context.stoppedLocation),
+             second range lies before / after / inside /   codeAction (range, context.diagnostics[].range),
+             across the first one, either may be reversed  callHierarchy/incomingCalls, outgoingCalls
+             or beyond the document                        (item.range, item.selectionRange)
+   u32::MAX does not fit TLC's integers: it is emitted as -1 and substituted by the transport; the
+   concrete strings of the name / character classes are a table of the transport as well.
 
    Expectation of every cell (judged by LsProtocolTrace on the recorded stream): the request is
    dispatched, its task finishes, exactly one response, which is a result or null ("ok").           *)
 EXTENDS Naturals, Integers, Sequences, FiniteSets, TLC, Json, IOUtils
 
-CONSTANTS K,        \* overshoot used by the "+ k" classes
-          TokSel,   \* tokens used for point requests: "ends" = first, middle, last; "all" = every token
-          RangeTokSel  \* tokens used for range requests: "mid" = the middle token; "ends"; "all"
+CONSTANTS K,           \* overshoot used by the "+ k" classes
+          TokSel,      \* anchor tokens of point requests: "ends" = first, middle, last; "all" = every token
+          RangeTokSel, \* anchor tokens of range requests and of lists of >= 2 positions: "mid" | "ends" | "all"
+          QuadTokSel,  \* anchor tokens of two-range requests
+          SecClasses,  \* classes the slots of two-range requests and of lists of 3 positions are drawn from
+          ListMax      \* longest list of positions (0..3)
 
 ASSUME TLCSet(2, ndJsonDeserialize(IOEnv.DOCS))
 Docs == TLCGet(2)
 
-PosClasses == {"tokStart", "tokInside", "eol", "eolPlus", "lastEnd", "lastPlus", "lineBeyond", "max"}
-TokClasses == {"tokStart", "tokInside", "eol", "eolPlus"}
-PointReqs == {"textDocument/hover", "textDocument/definition", "textDocument/references", "textDocument/rename",
+PosClasses == {"docStart", "tokStart", "tokInside", "eol", "eolPlus", "lastEnd", "lastPlus", "lineBeyond", "max"}
+ASSUME SecClasses \subseteq PosClasses
+
+PointReqs == {"textDocument/hover", "textDocument/definition", "textDocument/references",
               "textDocument/prepareRename", "textDocument/completion", "textDocument/signatureHelp",
-              "textDocument/documentHighlight", "textDocument/selectionRange",
-              "textDocument/prepareCallHierarchy", "textDocument/implementation",
-              "textDocument/onTypeFormatting"}
-RangeReqs == {"textDocument/inlineValue", "textDocument/codeAction", "textDocument/rangeFormatting",
-              "textDocument/inlayHint"}
+              "textDocument/documentHighlight", "textDocument/prepareCallHierarchy",
+              "textDocument/implementation", "inlayHint/resolve",
+              "textDocument/rename", "textDocument/onTypeFormatting"}
+ListReqs == {"textDocument/selectionRange"}
+RangeReqs == {"textDocument/rangeFormatting", "textDocument/inlayHint", "textDocument/colorPresentation",
+              "documentLink/resolve", "codeLens/resolve"}
+QuadReqs == {"textDocument/inlineValue", "textDocument/codeAction",
+             "callHierarchy/incomingCalls", "callHierarchy/outgoingCalls"}
+
+\* the position-like parameters of a request, in the order of the cell's classes
+Slots(req) ==
+  CASE req \in PointReqs -> <<"position">>
+    [] req \in ListReqs -> <<"positions[]">>
+    [] req \in RangeReqs -> <<"range.start", "range.end">>
+    [] req = "textDocument/inlineValue" ->
+         <<"range.start", "range.end", "context.stoppedLocation.start", "context.stoppedLocation.end">>
+    [] req = "textDocument/codeAction" ->
+         <<"range.start", "range.end", "context.diagnostics[].range.start", "context.diagnostics[].range.end">>
+    [] OTHER -> <<"item.range.start", "item.range.end", "item.selectionRange.start", "item.selectionRange.end">>
+
+\* string parameters that accompany a position: classes (the transport owns the concrete strings)
+NameClasses == {"ident", "empty", "keyword", "space", "digit", "nonascii"}    \* rename: newName
+ChClasses == {"newline", "letter", "empty", "astral"}                         \* onTypeFormatting: ch
+OptClasses(req) == CASE req = "textDocument/rename" -> NameClasses
+                     [] req = "textDocument/onTypeFormatting" -> ChClasses
+                     [] OTHER -> {"-"}
+\* codes of the diagnostics a codeAction request carries (one diagnostic per code, all at the drawn range)
+DiagCodes == <<"need-check-nil", "unknown-doc-tag", "preferred-local-alias", "undefined-global", "syntax-error">>
 
 NLines(doc) == Len(doc.lines)
 LineLen(doc, line) == doc.lines[line + 1]
@@ -40,7 +80,8 @@ Position(doc, t, pc) ==
       tl == IF t = 0 THEN 0 ELSE doc.toks[t][1]
       tc == IF t = 0 THEN 0 ELSE doc.toks[t][2]
       tn == IF t = 0 THEN 0 ELSE doc.toks[t][3]
-  IN CASE pc = "tokStart" -> <<tl, tc>>
+  IN CASE pc = "docStart" -> <<0, 0>>
+       [] pc = "tokStart" -> <<tl, tc>>
        [] pc = "tokInside" -> <<tl, tc + (tn \div 2)>>
        [] pc = "eol" -> <<tl, LineLen(doc, tl)>>
        [] pc = "eolPlus" -> <<tl, LineLen(doc, tl) + K>>
@@ -58,16 +99,29 @@ Sel(doc, sel) ==
   ELSE IF sel = "all" THEN 1..n
   ELSE IF sel = "mid" THEN {(n + 1) \div 2}
   ELSE {1, (n + 1) \div 2, n}
-Toks(doc) == Sel(doc, TokSel)
-RangeToks(doc) == Sel(doc, RangeTokSel)
+
+Tuples(S, n) == [1..n -> S]
+
+\* class tuples of a request and the anchor tokens they are placed at
+Shape(req) ==
+  CASE req \in PointReqs -> {[n |-> 1, cls |-> PosClasses, sel |-> TokSel]}
+    [] req \in ListReqs -> {[n |-> 0, cls |-> PosClasses, sel |-> "mid"],
+                            [n |-> 1, cls |-> PosClasses, sel |-> TokSel],
+                            [n |-> 2, cls |-> PosClasses, sel |-> RangeTokSel],
+                            [n |-> 3, cls |-> SecClasses, sel |-> RangeTokSel]}
+    [] req \in RangeReqs -> {[n |-> 2, cls |-> PosClasses, sel |-> RangeTokSel]}
+    [] OTHER -> {[n |-> 4, cls |-> SecClasses, sel |-> QuadTokSel]}
+
+AllReqs == PointReqs \cup ListReqs \cup RangeReqs \cup QuadReqs
 
 Cells ==
   UNION {
-    {[d |-> di, req |-> r, t |-> t, pcs |-> <<pc>>] :
-        r \in PointReqs, t \in Toks(Docs[di]), pc \in PosClasses}
-    \cup
-    {[d |-> di, req |-> r, t |-> t, pcs |-> <<pc1, pc2>>] :
-        r \in RangeReqs, t \in RangeToks(Docs[di]), pc1 \in PosClasses, pc2 \in PosClasses}
+    UNION {
+      UNION {
+        {[d |-> di, req |-> r, t |-> t, pcs |-> pcs, opt |-> o] :
+            t \in Sel(Docs[di], sh.sel), pcs \in Tuples(sh.cls, sh.n), o \in OptClasses(r)}
+        : sh \in {x \in Shape(r) : x.n <= ListMax \/ r \notin ListReqs}}
+      : r \in AllReqs}
     : di \in 1..Len(Docs)}
 
 VARIABLE cell
@@ -75,11 +129,25 @@ Init == cell \in Cells
 Next == UNCHANGED cell
 Spec == Init /\ [][Next]_cell
 
+Before(p, q) == p[1] < q[1] \/ (p[1] = q[1] /\ p[2] < q[2])
+
+\* how the second range of a two-range request lies relative to the first (by their start positions)
+Relation(doc, c) ==
+  IF Len(c.pcs) # 4 THEN "-"
+  ELSE LET a == Position(doc, c.t, c.pcs[1])
+           b == Position(doc, c.t, c.pcs[3]) IN
+       IF ~Denotes(doc, a) \/ ~Denotes(doc, b) THEN "second-or-first-beyond"
+       ELSE IF Before(b, a) THEN "second-before-first"
+       ELSE IF Before(a, b) THEN "second-after-first"
+       ELSE "same-start"
+
 Concrete(c) ==
   LET doc == Docs[c.d] IN
-  [doc |-> doc.cls, req |-> c.req, tok |-> c.t, pcs |-> c.pcs,
+  [doc |-> doc.cls, req |-> c.req, tok |-> c.t, pcs |-> c.pcs, slots |-> Slots(c.req), opt |-> c.opt,
+   codes |-> IF c.req = "textDocument/codeAction" THEN DiagCodes ELSE <<>>,
    pos |-> [i \in 1..Len(c.pcs) |-> Position(doc, c.t, c.pcs[i])],
    denotes |-> [i \in 1..Len(c.pcs) |-> Denotes(doc, Position(doc, c.t, c.pcs[i]))],
+   rel |-> Relation(doc, c),
    expect |-> "ok"]
 
 \* sanity of the reference itself: the in-document classes denote, the beyond classes do not
@@ -87,10 +155,16 @@ ClassesOK ==
   LET doc == Docs[cell.d] IN
   \A i \in 1..Len(cell.pcs) :
     LET p == Position(doc, cell.t, cell.pcs[i]) IN
-      /\ cell.pcs[i] \in {"tokStart", "tokInside", "eol", "eolPlus", "lastEnd", "lastPlus"} => Denotes(doc, p)
+      /\ cell.pcs[i] \in {"docStart", "tokStart", "tokInside", "eol", "eolPlus", "lastEnd", "lastPlus"} => Denotes(doc, p)
       /\ cell.pcs[i] \in {"lineBeyond", "max"} => ~Denotes(doc, p)
-      /\ cell.pcs[i] \in {"tokStart", "tokInside", "eol", "lastEnd"} => p[2] <= LineLen(doc, p[1])
+      /\ cell.pcs[i] \in {"docStart", "tokStart", "tokInside", "eol", "lastEnd"} => p[2] <= LineLen(doc, p[1])
       /\ cell.pcs[i] \in {"eolPlus", "lastPlus"} => p[2] > LineLen(doc, p[1])
+
+\* the matrix has no blind slot: every request is a cell with as many classes as it has position-like
+\* parameters (a list request: as many as the list is long)
+ShapeOK == /\ cell.req \in AllReqs
+           /\ cell.req \notin ListReqs => Len(cell.pcs) = Len(Slots(cell.req))
+           /\ cell.opt \in OptClasses(cell.req)
 
 Emit == PrintT(<<"CELL", ToJson(Concrete(cell))>>)
 =============================================================================
